@@ -357,6 +357,165 @@ def check_random(tier, seed):
     return ck
 
 
+# ------------------------------------------------------------------ decoys for some targets only
+def short_pieces(seq):
+    """decoy candidate without peptide when missed_cleavages=0 and min_length>=6: every 7-residue tryptic piece of the
+    mirrored sequence cut down to 5 residues"""
+    m = mirror(seq)
+    return "".join(m[i:i + 4] + m[i + 6] for i in range(0, len(m) - 6, 7)) if len(m) >= 7 else "ACK"
+
+
+def one_long_piece(seq):
+    """decoy candidate that is a single tryptic piece (inner K/R replaced): no peptide once it exceeds max_length"""
+    m = mirror(seq)
+    return "".join("A" if ch in "KR" else ch for ch in m[:-1]) + m[-1:]
+
+
+DECOY_KINDS = {"mirror": mirror, "absent": None, "short-pieces": short_pieces, "tiny": lambda s: "ACK",
+               "empty": lambda s: "", "one-long-piece": one_long_piece}
+
+
+def partial_records(order, seqs, kinds, layout, prefix=PREFIX):
+    """FASTA records for the target entry order `order`; kinds[i] names the decoy entry written for target i"""
+    t = [("p%d" % i, seqs[i]) for i in order]
+    dd = [None if kinds[i] == "absent" else (prefix + "p%d" % i, DECOY_KINDS[kinds[i]](seqs[i])) for i in order]
+    if layout == "concat":
+        return t + [r for r in dd if r is not None]
+    return [r for pair in zip(t, dd) for r in pair if r is not None]
+
+
+def digest_all(records, kw, digest_oracle):
+    """name -> peptide set (independent digest oracle of harness.c17) of every record that yields a peptide"""
+    prot_peps = {}
+    for name, s in records:
+        ps = frozenset(digest_oracle(s, "[KR]", kw.get("missed_cleavages", 2), kw.get("min_length", 6),
+                                     kw.get("max_length", 50), kw.get("clip_nterm_methionine", False), False))
+        if ps:
+            prot_peps[name] = ps
+    return prot_peps
+
+
+def partial_problems(records, kw, prefix, d, digest_oracle):
+    """-> (problems, canon, is_partial); problems is None when no target yields a peptide (rejected by design).
+    is_partial: some peptide-yielding target has a peptide-yielding decoy and some other one has not."""
+    from mokapot.parsers.fasta import read_fasta
+    prot_peps = digest_all(records, kw, digest_oracle)
+    targets = [n for n in prot_peps if not n.startswith(prefix)]
+    without = [t for t in targets if prefix + t not in prot_peps]
+    is_partial = bool(without) and len(without) < len(targets)
+    if not targets:
+        return None, None, False
+    path = str(d / "db.fasta")
+    write_fasta(path, records)
+    try:
+        p = read_fasta(path, decoy_prefix=prefix, **kw)
+    except Exception as e:                                                       # noqa: BLE001
+        return [("partial-decoys-read_fasta-raises", "%s: %s" % (type(e).__name__, e))], None, is_partial
+    problems, canon = contract_problems(p, prot_peps, prefix)
+    out = []
+    for case, what in problems:
+        if case == "decoy-pairing-wrong" and is_partial:
+            # name the class: which of the targets that the statement wants paired are not paired as prefix+name
+            wrong = [t for t in targets if p.protein_map.get(t) != prefix + t]
+            extra = [k for k in p.protein_map if k not in targets]
+            if wrong and not extra and all(t in without and t not in p.protein_map for t in wrong):
+                case = "partial-decoys-target-without-decoy-unpaired"
+            elif wrong and not extra and all(t not in without for t in wrong):
+                case = "partial-decoys-target-with-decoy-mispaired"
+            else:
+                case = "partial-decoys-pairing-wrong"
+        out.append((case, what))
+    return out, canon, is_partial
+
+
+def check_partial_decoys(tier, seed):
+    from harness.c17 import oracle as digest_oracle
+    n_pep = 2 if tier == "quick" else 3
+    n_rand = 100 if tier == "quick" else 1500
+    layouts = ["concat", "interleaved"]
+    structs = [c for c in structures(3, n_pep) if sum(1 for m in c if m) >= 2]
+    rng = random.Random(seed + 16)
+    ck = Check("grouping_partial_decoys", "mokapot.parsers.fasta.read_fasta",
+               "exhaustive: all %d incidence structures of 2..3 target proteins x %d peptides with >= 2 peptide-yielding "
+               "targets x every assignment of {mirrored decoy, no decoy entry, decoy entry of 5-residue pieces (no "
+               "peptide)} to the peptide-yielding targets with >= 1 mirrored and >= 1 not x %s, missed_cleavages=0, "
+               "min_length=6; random: %d databases (seed %d) of 3..7 targets as in grouping_random, every target's decoy "
+               "drawn from %s, x 2 entry orders x 2 layouts, missed_cleavages 0..2, min_length in {6,7,8}, max_length in "
+               "{7,14,21,50}, clip_nterm_methionine on/off, prefix in {decoy_, rev_}; in-process under one hash seed"
+               % (len(structs), n_pep,
+                  "entry order in {as listed, reversed} x one decoy layout (alternating concat/interleaved)"
+                  if tier == "quick" else "all entry orders x decoy layout in %s" % layouts,
+                  n_rand, seed, sorted(DECOY_KINDS)),
+               "as grouping_exhaustive (all statement clauses; in particular every peptide-yielding target is paired "
+               "with prefix+name whether or not that decoy is in the file, and has_decoys tells whether a paired decoy "
+               "yields a peptide); which decoys yield a peptide is decided by the independent digest oracle of "
+               "harness.c17; canonical result equal for the entry orders tried; non-trivial = some peptide-yielding "
+               "target has a peptide-yielding decoy and another one has none (missing entry or peptide-less entry)")
+
+    viols = []
+
+    def group(key, record_sets, kw, prefix, d):
+        first = None
+        for records in record_sets:
+            inp = dict(kw, records=records, prefix=prefix)
+            problems, canon, is_partial = partial_problems(records, kw, prefix, d, digest_oracle)
+            ck.case((key, tuple(r[0] for r in records)), nontrivial=is_partial)
+            for case, what in problems or []:
+                viols.append((case, what, inp))
+            if canon is None:
+                continue
+            if first is None:
+                first = (canon, records)
+            elif canon != first[0]:
+                viols.append(("partial-decoys-grouping-depends-on-entry-order", "orders %s and %s"
+                              % ([r[0] for r in first[1]], [r[0] for r in records]), dict(inp, records_b=first[1])))
+
+    with scratch("c16_") as d:
+        kw0 = dict(missed_cleavages=0)
+        g = 0
+        for combo in structs:
+            seqs = [seq_of(m, n_pep, j % 2) for j, m in enumerate(combo)]
+            yielding = [j for j, m in enumerate(combo) if m]
+            for assign in itertools.product(["mirror", "absent", "short-pieces"], repeat=len(yielding)):
+                if "mirror" not in assign or all(a == "mirror" for a in assign):
+                    continue
+                kinds = ["absent" if j % 2 else "tiny" for j in range(len(combo))]   # targets without peptides
+                for j, a in zip(yielding, assign):
+                    kinds[j] = a
+                ident = tuple(range(len(combo)))
+                orders = [ident, ident[::-1]] if tier == "quick" else list(itertools.permutations(ident))
+                for layout in ([layouts[g % 2]] if tier == "quick" else layouts):
+                    group(("x", combo, assign, layout),
+                          [partial_records(o, seqs, kinds, layout) for o in orders], kw0, PREFIX, d)
+                g += 1
+        for c in range(n_rand):
+            n_prot = rng.randint(3, 7)
+            seqs = []
+            for _ in range(n_prot):
+                if seqs and rng.random() < 0.35:
+                    base = seqs[rng.randrange(len(seqs))]
+                    k = len(base) // 7
+                    a = rng.randrange(k)
+                    seqs.append(base[7 * a:7 * rng.randint(a + 1, k)])
+                else:
+                    seqs.append("".join(rng.sample(POOL, rng.randint(1, 4))))
+            kw = dict(missed_cleavages=rng.choice([0, 1, 2]), clip_nterm_methionine=rng.random() < 0.5,
+                      min_length=rng.choice([6, 6, 7, 8]), max_length=rng.choice([7, 14, 21, 50, 50]))
+            prefix = rng.choice(["decoy_", "rev_"])
+            kinds = [rng.choice(["mirror", "mirror", "absent", "short-pieces", "tiny", "empty", "one-long-piece"])
+                     for _ in range(n_prot)]
+            a, b = rng.sample(range(n_prot), 2)
+            kinds[a] = "mirror"
+            if all(k == "mirror" for k in kinds):
+                kinds[b] = rng.choice(["absent", "tiny"])
+            orders = [tuple(range(n_prot)), tuple(rng.sample(range(n_prot), n_prot))]
+            for layout in layouts:
+                group(("r", c, layout), [partial_records(o, seqs, kinds, layout, prefix) for o in orders],
+                      kw, prefix, d)
+    _feed(ck, viols)
+    return ck
+
+
 def REPLAY(check_name, violation):
     from harness.c17 import oracle as digest_oracle
     inp = violation["input"]
@@ -372,18 +531,15 @@ def REPLAY(check_name, violation):
                 return {"violated": True, "detail": out["violations"][:2]}
             canon.append(out["canon"])
         return {"violated": canon[0] != canon[1], "detail": canon}
-    kw = {k: inp[k] for k in ("missed_cleavages", "clip_nterm_methionine", "min_length") if k in inp}
+    kw = {k: inp[k] for k in ("missed_cleavages", "clip_nterm_methionine", "min_length", "max_length") if k in inp}
 
     def one(records):
         records = [tuple(r) for r in records]
-        prot_peps = {}
-        for name, s in records:
-            ps = frozenset(digest_oracle(s, "[KR]", kw.get("missed_cleavages", 2), kw.get("min_length", 6), 50,
-                                         kw.get("clip_nterm_methionine", False), False))
-            if ps:
-                prot_peps[name] = ps
         with scratch("c16_") as d:
-            return run_one(records, prot_peps, d, prefix=inp["prefix"], **kw)
+            if check_name == "grouping_partial_decoys":
+                problems, canon, _ = partial_problems(records, kw, inp["prefix"], d, digest_oracle)
+                return problems or [], canon
+            return run_one(records, digest_all(records, kw, digest_oracle), d, prefix=inp["prefix"], **kw)
     try:
         problems, canon = one(inp["records"])
         if "records_b" in inp:
@@ -403,11 +559,15 @@ if __name__ == "__main__":
         os.execve(sys.executable, [sys.executable, "-m", "harness.c16"] + a0,
                   dict(os.environ, PYTHONHASHSEED=str(int(seed0) % 4294967295)))
     a = args()
-    emit([check_exhaustive(a.tier, a.seed), check_random(a.tier, a.seed)],
+    emit([check_exhaustive(a.tier, a.seed), check_random(a.tier, a.seed), check_partial_decoys(a.tier, a.seed)],
          ["groups are observed through peptide_map / shared_peptides values only (read_fasta does not return the "
           "group table); protein names contain neither ', ' nor '; '",
           "databases in which no target yields a peptide are excluded (read_fasta raises ValueError by design)",
-          "decoy entries mirror the targets (same incidence structure on the decoy side)",
+          "grouping_exhaustive / grouping_random: decoy entries mirror the targets (same incidence structure on the "
+          "decoy side); grouping_partial_decoys: decoys for some targets only (the others have no decoy entry or one "
+          "that yields no peptide inside the length window), no decoy entry without its target entry; 'paired with "
+          "the equally named prefixed decoy' is read as protein_map[target] == prefix + target for every target that "
+          "yields a peptide, whether or not that decoy is in the file (as for target-only databases)",
           "quick tier: one hash seed (PYTHONHASHSEED is pinned to --seed by re-executing the module when it is not "
           "set); thorough tier: two further hash seeds in subprocesses",
           "digest correctness itself is C17; here peptide sets come from designed sequences / the C17 oracle"])
